@@ -15,10 +15,13 @@ theorem BoxType.cc_length (t : BoxType) (h : t.Wf) : t.cc.length = 4 := by
   | std cc => exact h.1
   | uuid id => rfl
 
-theorem encHeader_length (t : BoxType) (l : Bool) (n : Nat) (h : t.Wf) :
+theorem encHeader_length (t : BoxType) (l : Bool) (n : Nat) :
     (encHeader t l n).length = hdrLen t l := by
-  have := BoxType.cc_length t h
-  cases l <;> simp [encHeader, hdrLen, this] <;> omega
+  cases l <;> simp [encHeader, hdrLen] <;> omega
+
+theorem hdrLen_wf (t : BoxType) (l : Bool) (h : t.Wf) :
+    hdrLen t l = 8 + (if l then 8 else 0) + t.ext.length := by
+  simp [hdrLen, BoxType.cc_length t h]
 
 theorem decHeaderType_enc (t : BoxType) (l e : Bool) (n : Nat) (rest : Bytes) (h : t.Wf) :
     decHeaderType t.cc l e n (t.ext ++ rest)
